@@ -547,6 +547,15 @@ func callSSA(i *interpreter, caller *frame, callpos token.Pos, fn *ssa.Function,
 		if h := i.es.P.hooks[name]; h != nil {
 			return h(fr, args)
 		}
+		if strings.Contains(name, "michaelquigley/pfxlog.") || strings.Contains(name, "sirupsen/logrus.") {
+			// logging is not the subject: empty bodies, zero results
+			i.noteStub("pfxlog / logrus: empty bodies")
+			res := fn.Signature.Results()
+			if res.Len() == 0 {
+				return nil
+			}
+			return zero(res)
+		}
 		if o := fn.Origin(); o != nil {
 			if h := i.es.P.hooks[o.String()]; h != nil {
 				return h(fr, args)
